@@ -1055,4 +1055,27 @@ example : (1/2:ℝ) < (v3 ([Real.pi / 2, 0, 0, 0.3] : DVec ℝ)).norm ∧ Real.s
   rw [this, pihalf_norm]
   exact ⟨by have := pihalf_gt; linarith, sin_quarter_ne⟩
 
+/-- **pass 11: the hypothesis `sin(θ/2) ≠ 0` replaced by the exact natural guard.**  For every rotation vector with `eps < θ < 2π` (every vector a
+`Log` returns has `θ ≤ π`) `so3_Jl` and `so3_Jl_inv` are inverse to each other in both orders (`so3_Jl_mul_JlInv`, `so3_JlInv_mul_Jl` without the
+side condition) -/
+theorem so3_Jl_JlInv_inverse_lt_two_pi (eps : ℝ) (x : Vec3 ℝ) (h0 : 0 ≤ eps) (h : eps < x.norm) (h2 : x.norm < 2 * Real.pi) :
+    (so3Jl eps x).mul (so3JlInv eps x) = Mat3.one ∧ (so3JlInv eps x).mul (so3Jl eps x) = Mat3.one :=
+  so3Jl_JlInv_inverse_pair eps x h0 h h2
+
+/-- … and `SE3_Log.backward` is the true derivative for every curve through an `X` in regime 1 of `SO3_Log` whose logarithm has
+`max(eps, 0.05) < θ < 2π` (`SE3_Log_tangent` with `sin(θ/2) ≠ 0` discharged) -/
+theorem SE3_Log_tangent_lt_two_pi (eps : ℝ) (heps : 0 ≤ eps) (X : ℝ → DVec ℝ) (a0 a1 a2 a3 a4 a5 : ℝ)
+    (hX : GTangent .SE3 X [a0, a1, a2, a3, a4, a5]) (hu : UnitQ .SE3 (X 0))
+    (hv : eps < (qt (X 0) 3).vec.norm) (hw : eps < |(qt (X 0) 3).w|)
+    (hφ : eps < (v3 (logF .SE3 eps (X 0)) 3).norm) (hq : (5:ℝ)/100 < (v3 (logF .SE3 eps (X 0)) 3).norm)
+    (h2 : (v3 (logF .SE3 eps (X 0)) 3).norm < 2 * Real.pi) :
+    LCurve 6 (fun t => logF .SE3 eps (X t)) ((JlInvMat .SE3 eps (logF .SE3 eps (X 0))).mulVec [a0, a1, a2, a3, a4, a5]) :=
+  SE3Log_tangent_lt_two_pi eps heps X a0 a1 a2 a3 a4 a5 hX hu hv hw hφ hq h2
+
+/-- non-vacuity: `x = (π/2, 0, 0)` has `1/2 < ‖x‖ = π/2 < 2π`; it is the rotation part of `Log` of the quarter turn used in the `SE3_Log_tangent` example -/
+example : (1/2:ℝ) < (⟨Real.pi / 2, 0, 0⟩ : Vec3 ℝ).norm ∧ (⟨Real.pi / 2, 0, 0⟩ : Vec3 ℝ).norm < 2 * Real.pi := by
+  rw [pihalf_norm]
+  have := pihalf_gt; have hp := Real.pi_pos
+  exact ⟨by linarith, by linarith⟩
+
 end PP.AD
